@@ -46,7 +46,7 @@ Definition zero_he_votes (s : est) : est :=
 (* keep, new weight *)
 Definition kw_warren (kf w : V) : V * V :=
   let keep := if ltv A kf w then kf else w in (keep, sub A w keep).
-Definition kw_meek (kf w : V) : V * V := (kmul A w kf RDown, kmul A w (sub A V1 kf) RDown).
+Definition kw_meek (kf w : V) : V * V := (kmul A w kf false, kmul A w (sub A V1 kf) false).
 Definition kt (kf w : V) : V * V := if cf_warren cfg then kw_warren kf w else kw_meek kf w.
 
 (* one strict-ranking ballot: walk the ranking *)
@@ -132,7 +132,7 @@ Definition elected_surplus (s : est) : V := vsum A (map (fun c => sub A (cvote c
 Definition update_kfs (s : est) : est :=
   fold_left (fun s c =>
     if crashed s then s else
-    match kdiv A (kmul A (kf_of c) (quota s) RUp) (cvote c) RUp with
+    match kdiv A (kmul A (kf_of c) (quota s) true) (cvote c) true with
     | Ok k => upd A s (cid c) (fun c => with_kf c (Some k))
     | Raise e => set_crash s e
     end) (electeds A s) s.
@@ -173,9 +173,10 @@ Definition meek_defeat_batch (s : est) : est :=
     (by_order A (cands_of' s (lv_batch s))) s.
 
 Definition low_within_surplus (s : est) : res (list cand) :=
-  match vmin A (map (@cvote A) (hopefuls A s)) with
-  | Raise e => Raise e
-  | Ok lv => Ok (filter (fun c => gev A (add A lv (surplus s)) (cvote c)) (hopefuls A s))
+  match map (@cvote A) (hopefuls A s) with
+  | [] => Raise ValueError        (* dead: every call is guarded by "if C.hopeful():" *)
+  | x :: l => let lv := vmin A x l in
+              Ok (filter (fun c => gev A (add A lv (surplus s)) (cvote c)) (hopefuls A s))
   end.
 
 Definition meek_defeat_low (tiefmt : string -> string -> string) (redistribute : bool) (s : est) : est :=
@@ -247,7 +248,7 @@ Fixpoint dist_ballot_prf (cs : list cand) (mult : V) (r : list Z) (w : V) (bres 
     match find_cand A cs i with
     | Some c =>
       if kf_truthy c then
-        let kw := kmul A w (kf_of c) RUp in
+        let kw := kmul A w (kf_of c) true in
         let kv := mulv A kw mult in
         let cs' := upd_cand A i (fun c => with_vote c (add A (cvote c) kv)) cs in
         let w' := sub A w kw in
